@@ -85,6 +85,7 @@ def run(module_dir, module, cfg, *, env=None, workers=16, timeout=3600, extra=()
     shutil.rmtree(meta, ignore_errors=True)
     os.makedirs(meta, exist_ok=True)
     cmd = _java(heap)
+    cmd.insert(1, '-Djava.io.tmpdir=' + meta)      # TLC's scratch directories go where they are removed afterwards, not to /tmp
     if dfs:
         cmd.insert(1, '-Dtlc2.tool.queue.IStateQueue=StateDeque')
     cmd += ['tlc2.TLC', '-workers', str(workers), '-metadir', meta, '-noGenerateSpecTE']
